@@ -49,11 +49,17 @@ KF1(e, subj) ==
 (* the vector for k >= ones, select0 refuses valid k.  rank and get stay exact.                *)
 LineWords(fam) == IF fam = "se512" THEN 8 ELSE 4
 StaleTrigger(fam) == N > 0 /\ ((N + 63) \div 64) % LineWords(fam) # 0
+(* select1: exact below ones, then refused or a position beyond the vector (a stale one);  *)
+(* select0: exact or refused below zeros, then refused or beyond the vector                *)
+KF2Allowed(which, k, x) ==
+    IF which = "select1"
+    THEN IF k < Ones THEN x = vec.p1[k + 1] ELSE x = Refused \/ x >= N
+    ELSE IF k < Zeros THEN x \in {vec.p0[k + 1], Refused} ELSE x = Refused \/ x >= N
 G2(e, subj) ==
     /\ subj.route = "shrunk" /\ subj.fam \in {"se256", "se512", "simple"}
     /\ StaleTrigger(subj.fam)
     /\ \/ e.op = "counts" /\ ~ CountsOK(e.len, e.ones, e.zeros)
-       \/ e.op = "select" /\ e.all /\ ~ SelectAllOK(e.which, e.r)
+       \/ e.op = "select" /\ ~ (IF e.all THEN SelectAllOK(e.which, e.r) ELSE SelectAtOK(e.which, e.at, e.r))
        \* the stale ones can outnumber the zeros: count_zeros = len - ones wraps and select0 indexes past its tables
        \/ /\ e.op = "panic" /\ e.in = "select0" /\ e.kind = "oob"
           /\ Zeros < 64 * (LineWords(subj.fam) - 1)
@@ -64,14 +70,10 @@ KF2(e, subj) ==
           /\ e.len = N
           /\ e.ones > Ones /\ e.ones <= Ones + 64 * (LineWords(subj.fam) - 1)
           /\ e.zeros = (IF e.ones <= N THEN N - e.ones ELSE Huge)
-       \/ /\ e.op = "select" /\ e.which = "select1"
-          /\ Len(e.r) = N + 1
-          /\ \A k \in 0..N : IF k < Ones THEN e.r[k + 1] = vec.p1[k + 1]
-                             ELSE e.r[k + 1] = Refused \/ e.r[k + 1] >= N
-       \/ /\ e.op = "select" /\ e.which = "select0"
-          /\ Len(e.r) = N + 1
-          /\ \A k \in 0..N : IF k < Zeros THEN e.r[k + 1] \in {vec.p0[k + 1], Refused}
-                             ELSE e.r[k + 1] = Refused \/ e.r[k + 1] >= N
+       \/ /\ e.op = "select"
+          /\ LET ks == IF e.all THEN Seq0(N + 1) ELSE e.at IN
+             /\ Len(e.r) = Len(ks)
+             /\ \A j \in 1..Len(ks) : KF2Allowed(e.which, ks[j], e.r[j])
     /\ UNCHANGED vec
 
 (* ---------------------------------------------------------------------------------------- *)
